@@ -92,7 +92,8 @@ def run(ctx):
     sinks = ctx.sites(F, 'Storage::update_check_points', 1) + ctx.sites(F, 'Storage::update_max_check_point_index', 1)
     cs = ctx.cmp_stmts(F)
     enough = [c for c in cs if c[2] in ('Lt', 'Ge') and 'HashMap::len' in calls(org(du, c[3])) and 'Peers::required_peers_count' in calls(org(du, c[4]))]
-    ctx.floor('C07.r2', '`peers_with_data.len() < required_peers_count` tests', len(enough), 2)
+    # guards, not anchors: a missing test is a finding
+    ctx.ob('C07.r2', F.name, 'the number of proven peers is compared with the quorum both before and after dropping contradicting peers', len(enough) >= 2, found=len(enough))
     for c in enough:
         ctx.stmt_guard('C07.r2', F, [c], 'false' if c[2] == 'Lt' else 'true', sinks, gname='peers_with_data.len() %s required' % ('<' if c[2] == 'Lt' else '>='))
     quorum = [c for c in cs if c[2] in ('Ge', 'Lt') and 'Peers::required_peers_count' in calls(org(du, c[4])) and c not in enough
